@@ -212,6 +212,167 @@ Example C03_chord_order :
   = ([[(0, 64, 0, 86, 100); (0, 60, 0, 86, 100)]], [[(0, 60, 0, 86, 100); (0, 64, 0, 86, 100)]], true).
 Proof. vm_compute. reflexivity. Qed.
 
+(* ================================================================================================== *)
+(* C03_transpose - the metamorphic law: a program run under a raised key shift plays the same notes, moved.
+     transp d n n'        proofs/TransposeP.v   n' is n with the same channel, start, duration and velocity, and the keys are
+                                                clampz 0 127 x  and  clampz 0 127 (x + d)  for one unclamped key x: the clamp of
+                                                the documented semantics is applied on BOTH sides.  For a note that was not
+                                                clamped (0 < key < 127) this is key' = clampz 0 127 (key + d), and key' = key + d
+                                                when that is in 0..127 (C03_transp_exact).  Without such a proviso the law is
+                                                false: o10 b sounds 127 (clamped from 131), KeyShift(-12) o10 b sounds 119, not 115
+     keeps_prog ks tk p   proofs/TransposeP.v   the side condition, checked through loops, chords, tuplets and Sub blocks:
+                                                p contains no KeyShift (ks = false) / no TrackKey (tk = false) - a later
+                                                KeyShift / TrackKey is absolute and overwrites the earlier one
+     moved_after q d P P' proofs/TransposeP.v   P and P' added the same notes to those the tracks of q already held, the keys on
+                                                track i moved by d i; same_but_keys: current track, time base, key signature and
+                                                per track pointer, channel, l o v q t are equal
+   What is moved: lettered notes, chord notes, notes with an explicit octave, octave-once notes AND n-notes (runner.rs
+   exec_note_n adds track_key and key_shift like set_note_info_with_default_value does), on every channel (channel 10 /
+   rhythm is not exempt); a key signature (KeyFlag) and octave commands inside p are unaffected by the shift.
+   Proved on spec/NoteSem.v by induction over the fuel of `sem` (every nested block runs with the fuel below), then carried
+   to exec() on the tokens by C03_exec.
+   An octave change is NOT such a law in general (n-notes and notes with an explicit octave do not follow it, o is
+   absolute, > < and the octave-once marks stop at 0 and 10, a new track starts at o5): see C03_octave_not_a_shift.
+   It is one for the programs that use the octave only through the track's current octave (keeps3_prog _ _ false p: no
+   o > < octave-once marks, no octave written on a note, no n-note) and octaves inside 0..10: C03_transpose_octave. *)
+From Sakura.Proofs Require Import TransposeP.
+
+Theorem C03_transp_exact : forall (d : Z) (n n' : note),
+  transp d n n' -> 0 < n_key n < 127 -> 0 <= n_key n + d <= 127 ->
+  n_key n' = n_key n + d /\ n_ch n' = n_ch n /\ n_start n' = n_start n /\ n_dur n' = n_dur n /\ n_vel n' = n_vel n.
+Proof. exact transp_exact_all. Qed.
+
+(* MAIN, on the machine.  For every well-formed program p without KeyShift: exec() on the tokens of p and on the tokens of
+   KeyShift(k) p terminates normally, and per track the sounded notes of the second run are those of the first (up to
+   the order in which a chord's notes are stored) with every key moved by k. *)
+Theorem C03_transpose : forall (p : list cmd) (k : Z), wf_prog p = true -> keeps_prog false true p = true ->
+  let p' := CKeyShift k :: p in
+  exists s s',
+    exec_f (S (prog_depth p)) (fuel_of p) (top_tokens p) (Ok song_new) = Ok s /\
+    exec_f (S (prog_depth p')) (fuel_of p') (top_tokens p') (Ok song_new) = Ok s' /\
+    Forall2 (fun tr tr' => exists l l', Permutation (notes_of (tr_events tr)) l /\ Permutation (notes_of (tr_events tr')) l' /\
+                                        Forall2 (transp k) l l') (s_tracks s) (s_tracks s').
+Proof. exact keyshift_exec. Qed.
+
+(* the same law in the documented semantics (no well-formedness needed), in order, with everything else equal *)
+Theorem C03_transpose_sem : forall (p : list cmd) (k : Z), keeps_prog false true p = true ->
+  Forall2 (fun t t' => Forall2 (transp k) (t_notes t) (t_notes t')) (p_tracks (denote_prog p)) (p_tracks (denote_prog (CKeyShift k :: p)))
+  /\ same_but_keys (denote_prog p) (denote_prog (CKeyShift k :: p)).
+Proof. exact keyshift_law0. Qed.
+
+(* KeyShift anywhere: after any commands `pre`, KeyShift(a + k) instead of KeyShift(a) moves the notes played from there
+   on by k, on every track; the notes played before are the same. *)
+Theorem C03_transpose_at : forall (pre p : list cmd) (a k : Z), keeps_prog false true p = true ->
+  let P := denote_prog (pre ++ CKeyShift a :: p) in
+  let P' := denote_prog (pre ++ CKeyShift (a + k) :: p) in
+  moved_after (denote_prog pre) (fun _ => k) P P' /\ same_but_keys P P'.
+Proof. exact keyshift_law. Qed.
+
+(* TrackKey: the notes played from there on are moved by k on the track TrackKey was given on (the current track after
+   `pre`), the other tracks are not touched - for programs p without a further TrackKey (KeyShift may occur). *)
+Theorem C03_transpose_track_key : forall (pre p : list cmd) (a k : Z), keeps_prog true false p = true ->
+  let P := denote_prog (pre ++ CTrackKey a :: p) in
+  let P' := denote_prog (pre ++ CTrackKey (a + k) :: p) in
+  moved_after (denote_prog pre) (fun i => if Nat.eqb i (p_cur (denote_prog pre)) then k else 0) P P' /\ same_but_keys P P' /\
+  forall i, i <> p_cur (denote_prog pre) -> t_notes (nth i (p_tracks P') d0) = t_notes (nth i (p_tracks P) d0).
+Proof. exact trackkey_law_full. Qed.
+
+(* both on the machine: exec() on the tokens of the two programs ends in states related (C03_exec's R) to the two
+   denotations, which the law relates *)
+Theorem C03_transpose_at_exec : forall (pre p : list cmd) (a k : Z),
+  wf_prog pre = true -> wf_prog p = true -> keeps_prog false true p = true ->
+  let X := pre ++ CKeyShift a :: p in
+  let X' := pre ++ CKeyShift (a + k) :: p in
+  exists s s',
+    exec_f (S (prog_depth X)) (fuel_of X) (top_tokens X) (Ok song_new) = Ok s /\ R s (denote_prog X) /\
+    exec_f (S (prog_depth X')) (fuel_of X') (top_tokens X') (Ok song_new) = Ok s' /\ R s' (denote_prog X') /\
+    moved_after (denote_prog pre) (fun _ => k) (denote_prog X) (denote_prog X') /\ same_but_keys (denote_prog X) (denote_prog X').
+Proof. exact keyshift_exec_at. Qed.
+
+Theorem C03_transpose_track_key_exec : forall (pre p : list cmd) (a k : Z),
+  wf_prog pre = true -> wf_prog p = true -> keeps_prog true false p = true ->
+  let X := pre ++ CTrackKey a :: p in
+  let X' := pre ++ CTrackKey (a + k) :: p in
+  exists s s',
+    exec_f (S (prog_depth X)) (fuel_of X) (top_tokens X) (Ok song_new) = Ok s /\ R s (denote_prog X) /\
+    exec_f (S (prog_depth X')) (fuel_of X') (top_tokens X') (Ok song_new) = Ok s' /\ R s' (denote_prog X') /\
+    moved_after (denote_prog pre) (fun i => if Nat.eqb i (p_cur (denote_prog pre)) then k else 0) (denote_prog X) (denote_prog X') /\
+    same_but_keys (denote_prog X) (denote_prog X').
+Proof. exact trackkey_exec_at. Qed.
+
+(* the fuel of the documented semantics is immaterial above the nesting depth (what makes `denote_prog` of a program and
+   of its parts comparable) *)
+Theorem C03_sem_fuel : forall (f f' : nat) (l : list cmd) (q : perf),
+  (prog_depth l <= f)%nat -> (prog_depth l <= f')%nat -> sem_prog f l q = sem_prog f' l q.
+Proof. exact sem_prog_fuel_any. Qed.
+
+(* non-vacuity, on the program of C03_example (loop with ':', chord, tuplet with n60 and a nested loop, Sub with an explicit
+   octave, three tracks): the side condition holds, and the machine's notes under KeyShift(3) are the notes + 3 *)
+Definition ex_keys (s : res song) : list (list Z) :=
+  match s with Ok s => map (fun tr => map (fun n => n_key n) (notes_of (tr_events tr))) (s_tracks s) | _ => [] end.
+Example C03_transpose_example :
+  wf_prog ex_prog = true /\ keeps_prog false true ex_prog = true /\ keeps_prog true false ex_prog = true /\
+  ex_keys (exec_f (S (prog_depth ex_prog)) (fuel_of ex_prog) (top_tokens ex_prog) (Ok song_new))
+  = [[60; 65; 72; 91; 88; 72]; []; [67; 60; 66; 66; 45; 71]] /\
+  ex_keys (exec_f (S (prog_depth (CKeyShift 3 :: ex_prog))) (fuel_of (CKeyShift 3 :: ex_prog)) (top_tokens (CKeyShift 3 :: ex_prog)) (Ok song_new))
+  = [[63; 68; 75; 94; 91; 75]; []; [70; 63; 69; 69; 48; 74]] /\
+  (* TrackKey(3) in front: the first track only *)
+  ex_keys (exec_f (S (prog_depth (CTrackKey 3 :: ex_prog))) (fuel_of (CTrackKey 3 :: ex_prog)) (top_tokens (CTrackKey 3 :: ex_prog)) (Ok song_new))
+  = [[63; 68; 75; 94; 91; 75]; []; [67; 60; 66; 66; 45; 71]] /\
+  (* the clamp on both sides: KeyShift(100) *)
+  ex_keys (exec_f (S (prog_depth (CKeyShift 100 :: ex_prog))) (fuel_of (CKeyShift 100 :: ex_prog)) (top_tokens (CKeyShift 100 :: ex_prog)) (Ok song_new))
+  = [[127; 127; 127; 127; 127; 127]; []; [127; 127; 127; 127; 127; 127]].
+Proof. repeat split; vm_compute; reflexivity. Qed.
+
+(* the side condition is needed: a KeyShift inside p overwrites the one in front *)
+Example C03_transpose_needs_side_condition :
+  let p := [ex0; CKeyShift 1; ex0] in
+  keeps_prog false true p = false /\
+  map (fun t => map (fun n => n_key n) (t_notes t)) (p_tracks (denote_prog p)) = [[60; 61]] /\
+  map (fun t => map (fun n => n_key n) (t_notes t)) (p_tracks (denote_prog (CKeyShift 5 :: p))) = [[65; 61]].
+Proof. repeat split; vm_compute; reflexivity. Qed.
+(* the clamp is needed in the statement: o10 b is 127 (from 131); under KeyShift(-12) it is 119 = clamp (131 - 12), not 127 - 12 *)
+Example C03_transpose_clamp :
+  let p := [COct 10; ex_n 11] in
+  map (fun t => map (fun n => n_key n) (t_notes t)) (p_tracks (denote_prog p)) = [[127]] /\
+  map (fun t => map (fun n => n_key n) (t_notes t)) (p_tracks (denote_prog (CKeyShift (-12) :: p))) = [[119]].
+Proof. split; vm_compute; reflexivity. Qed.
+(* an octave step in front is not a shift by 12 of everything: n60 and a note with an explicit octave stay, o is absolute,
+   and > stops at octave 10 *)
+Example C03_octave_not_a_shift :
+  let keys p := map (fun t => map (fun n => n_key n) (t_notes t)) (p_tracks (denote_prog p)) in
+  let p := [ex0; CNoteN 60 None None None None; CNote 0 0 false None None None None (Some 5); COct 5; ex0] in
+  keys p = [[60; 60; 60; 60]] /\ keys (COctUp :: p) = [[72; 60; 60; 60]] /\
+  keys [COct 10; ex0] = [[120]] /\ keys [COct 10; COctUp; ex0] = [[120]].
+Proof. repeat split; vm_compute; reflexivity. Qed.
+
+(* the octave: o(a + j) instead of o(a) moves the notes played from there on, on the track it is given on, by 12 j;
+   other tracks (also those created later) are not touched.  only_track c d i = if i = c then d else 0 *)
+Theorem C03_transpose_octave : forall (pre p : list cmd) (a j : Z),
+  0 <= a <= 10 -> 0 <= a + j <= 10 -> keeps3_prog true true false p = true ->
+  moved_after (denote_prog pre) (only_track (p_cur (denote_prog pre)) (12 * j))
+              (denote_prog (pre ++ COct a :: p)) (denote_prog (pre ++ COct (a + j) :: p)).
+Proof. exact octave_law. Qed.
+
+Theorem C03_transpose_octave_exec : forall (pre p : list cmd) (a j : Z),
+  wf_prog pre = true -> wf_prog p = true -> 0 <= a <= 10 -> 0 <= a + j <= 10 -> keeps3_prog true true false p = true ->
+  let X := pre ++ COct a :: p in
+  let X' := pre ++ COct (a + j) :: p in
+  exists s s',
+    exec_f (S (prog_depth X)) (fuel_of X) (top_tokens X) (Ok song_new) = Ok s /\ R s (denote_prog X) /\
+    exec_f (S (prog_depth X')) (fuel_of X') (top_tokens X') (Ok song_new) = Ok s' /\ R s' (denote_prog X') /\
+    moved_after (denote_prog pre) (only_track (p_cur (denote_prog pre)) (12 * j)) (denote_prog X) (denote_prog X').
+Proof. exact octave_exec_at. Qed.
+
+(* non-vacuity: "c o4 [2 c 'eg' ] {c d e}4 TR(2) c" against the same with o6: the first track from the o on + 24,
+   the note before it and the other track the same *)
+Example C03_transpose_octave_example :
+  let p := [CLoop (Some 2) [ex0; CChord [ex_n 4; ex_n 7] None None None] None; CTuplet [ex0; ex_n 2; ex_n 4] None; CTrack 2; ex0] in
+  keeps3_prog true true false p = true /\ wf_prog p = true /\
+  ex_keys (exec_f 4 60 (top_tokens ([ex0] ++ COct 4 :: p)) (Ok song_new)) = [[60; 48; 55; 52; 48; 55; 52; 48; 50; 52]; []; [60]] /\
+  ex_keys (exec_f 4 60 (top_tokens ([ex0] ++ COct 6 :: p)) (Ok song_new)) = [[60; 72; 79; 76; 72; 79; 76; 72; 74; 76]; []; [60]].
+Proof. repeat split; vm_compute; reflexivity. Qed.
+
 Print Assumptions C03_tuplet_count.
 Print Assumptions C03_exec.
 Print Assumptions C03_exec_tokens.
@@ -221,3 +382,13 @@ Print Assumptions C03_notes.
 Print Assumptions C03_run_source.
 Print Assumptions C03_step_note.
 Print Assumptions C03_octave_once.
+Print Assumptions C03_transp_exact.
+Print Assumptions C03_transpose.
+Print Assumptions C03_transpose_sem.
+Print Assumptions C03_transpose_at.
+Print Assumptions C03_transpose_track_key.
+Print Assumptions C03_transpose_at_exec.
+Print Assumptions C03_transpose_track_key_exec.
+Print Assumptions C03_sem_fuel.
+Print Assumptions C03_transpose_octave.
+Print Assumptions C03_transpose_octave_exec.
